@@ -165,6 +165,8 @@ func buildRace() {
 
 var accessRe = regexp.MustCompile(`(?m)^(?:Write|Read|Previous write|Previous read|Atomic write|Atomic read|Previous atomic write|Previous atomic read) at [^\n]*\n  ([^\s]+)\(\)`)
 
+var swapFrameRe = regexp.MustCompile(`\.\(\*[vV]erifier\)\.Reset(Request|Response)Verifications$|^\.NewMultiError$`)
+
 var raceModes = map[string]string{"A": "tree behind martianhttp.Modifier", "B": "tree wired directly to the handlers",
 	"P": "pingback verifiers behind martianhttp.Modifier", "Q": "pingback verifiers wired directly to the handlers"}
 
@@ -209,7 +211,14 @@ func raceOp(mode string) core.Result {
 		}
 		// the swap: a verifier's Reset*Verifications is on one of the two stacks (the access itself, or
 		// the initialisation of the fresh MultiError it allocates)
-		isSwap := strings.Contains(rep, "erifier).ResetRequestVerifications()") || strings.Contains(rep, "erifier).ResetResponseVerifications()")
+		// (only when that is where the access IS: a race inside a method the reset calls, e.g. an
+		// unlocked MultiError.Reset, is not this finding)
+		isSwap := false
+		for _, f := range acc {
+			if swapFrameRe.MatchString(f) {
+				isSwap = true
+			}
+		}
 		allPing := len(acc) > 0
 		for _, f := range acc {
 			if !strings.HasPrefix(f, "/pingback.(*Verifier).") {
